@@ -1450,7 +1450,28 @@ where
                 } else {
                     Cow::Owned(env::current_dir()?.join(dname))
                 };
-                helpers::normpath(&dname).into_owned()
+                // The directory does not exist (yet).  Resolve the part of it
+                // that does, so that a symlinked ancestor still gives the name
+                // the target will have once the directory is there.
+                let mut existing: &Path = &dname;
+                let mut rest: Vec<&OsStr> = Vec::new();
+                loop {
+                    match (existing.parent(), existing.file_name()) {
+                        (Some(parent), Some(name)) => {
+                            rest.push(name);
+                            existing = parent;
+                        }
+                        _ => break helpers::normpath(&dname).into_owned(),
+                    }
+                    match existing.canonicalize() {
+                        Ok(mut real) => {
+                            real.extend(rest.iter().rev());
+                            break helpers::normpath(&real).into_owned();
+                        }
+                        Err(e) if e.kind() == io::ErrorKind::NotFound => {}
+                        Err(_) => break helpers::normpath(&dname).into_owned(),
+                    }
+                }
             }
             Err(e) => return Err(e),
         };
